@@ -94,6 +94,26 @@ Theorem C04_mid_answer_is_delivered : forall c i,
 Proof. exact mid_answer_is_delivered. Qed.
 Print Assumptions C04_mid_answer_is_delivered.
 
+(* an endpoint built through proxy.NewShadowFactory with a shadow backend: whatever its
+   shadow_timeout (shorter or longer than the endpoint timeout, or none at all), every regular
+   backend call runs under exactly the same context, hence the same deadline; what the client
+   certainly receives and what the oracle demands are the same too *)
+Theorem C04_shadow_timeout_irrelevant : forall F c s clk i j slack o,
+  ctx_call F (with_shadow c s) clk i j = ctx_call F c clk i j /\
+  deadline (ctx_call F (with_shadow c s) clk i j) = deadline (ctx_call F c clk i j) /\
+  must_keys (with_shadow c s) = must_keys c /\
+  spec_b F (with_shadow c s) slack o = spec_b F c slack o.
+Proof. intros. repeat split. Qed.
+Print Assumptions C04_shadow_timeout_irrelevant.
+
+(* ... and the end of the shadow pipe's detached context (cancelled when the shadow call is over,
+   or expired at the shadow timeout) does not end a regular call before its own deadline *)
+Theorem C04_shadow_end_harmless : forall F c clk i j now,
+  (j < 8)%nat -> (forall x, deadline (ctx_call F c clk i j) = Some x -> now < x) ->
+  done [tok_shadow] now (ctx_call F c clk i j) = false.
+Proof. exact shadow_cancel_harmless. Qed.
+Print Assumptions C04_shadow_end_harmless.
+
 (* the observed deadline is compared with the model at the earliest and the latest possible
    moments of derivation: sound because the deadline is monotone in those moments *)
 Theorem C04_deadline_monotone : forall F c clk clk' i j,
@@ -161,7 +181,7 @@ Print Assumptions C04_model_deadline_meets_oracle.
 (* ---- non-vacuity ---- *)
 Definition ex_cfg : config :=
   {| c_level := LMux; c_seq := false; c_T := 1000; c_parent := Some 5000; c_http := false;
-     c_backends := [[Answer]; [Hang; Late]; [Fail]] |}.
+     c_backends := [[Answer]; [Hang; Late]; [Fail]]; c_shadow := None |}.
 Definition ex_clk : clock := fun s => match s with SRouter => 1 | SMerge => 2 | SConc _ => 3 end.
 
 (* mux, three backends, the second with two concurrent attempts: 1+1000, 2+850, 3+750 *)
@@ -211,7 +231,16 @@ Proof. vm_compute. reflexivity. Qed.
 (* a Mid backend next to a sibling whose concurrent stage (75 %) gives up first: still certain *)
 Example C04_ex_mid :
   must_keys {| c_level := LProxy; c_seq := false; c_T := 1000; c_parent := None; c_http := false;
-               c_backends := [[Mid]; [Hang; Hang]] |} = [0%nat] /\
+               c_backends := [[Mid]; [Hang; Hang]]; c_shadow := None |} = [0%nat] /\
   must_keys {| c_level := LMux; c_seq := false; c_T := 1000; c_parent := Some 500; c_http := false;
-               c_backends := [[Mid]; [Hang; Hang]] |} = [].
+               c_backends := [[Mid]; [Hang; Hang]]; c_shadow := None |} = [].
 Proof. vm_compute. auto. Qed.
+
+(* a 400 ms endpoint with a 3 s / 50 ms shadow backend: merge deadline 340 ms either way *)
+Example C04_ex_shadow :
+  map (fun s => deadline (ctx_call lura_factors
+         {| c_level := LProxy; c_seq := false; c_T := 400000000; c_parent := None; c_http := false;
+            c_backends := [[Answer]; [Hang]]; c_shadow := s |} (fun _ => 0) 1 0))
+      [None; Some 3000000000; Some 50000000]
+  = [Some 340000000; Some 340000000; Some 340000000].
+Proof. vm_compute. reflexivity. Qed.
